@@ -786,7 +786,12 @@ impl<T: Config> P2PSession<T> {
                 if self.sync_layer.current_frame() > last_frame + 1 {
                     // remember to adjust simulation to account for the fact that the player disconnected a few frames ago,
                     // resimulating with correct disconnect flags (to account for user having some AI kick in).
-                    self.disconnect_frame = last_frame + 1;
+                    // Several players can be disconnected before the next rollback happens: keep the earliest frame.
+                    self.disconnect_frame = if self.disconnect_frame == NULL_FRAME {
+                        last_frame + 1
+                    } else {
+                        std::cmp::min(self.disconnect_frame, last_frame + 1)
+                    };
                 }
             }
             PlayerType::Spectator(addr) => {
